@@ -252,6 +252,11 @@ pub enum Chunk {
     /// A well-framed payload of random bytes.
     Garbage { seed: u64, len: u32 },
     Flood { base: AdvMsg, n: u32 },
+    /// A valid payload with runs of bytes doubled (kind 0), removed (kind 1) or overwritten with a
+    /// character that means something to the format (kind 2), re-framed with the right length:
+    /// numbers, strings and sequences come out longer, shorter or differently typed than any
+    /// well-behaved encoder would make them.
+    Spliced { base: AdvMsg, edits: Vec<(u32, u8, u8)> },
 }
 
 #[derive(Clone, Debug, Serialize, Deserialize, PartialEq)]
@@ -463,6 +468,7 @@ pub fn gen_adversary(rng: &mut Rng) -> BytesScn {
             0..=4 => Chunk::Valid(base),
             5 | 6 => Chunk::Flipped { base, flips: (0..rng.range(1, 4)).map(|_| (rng.below(4096) as u32, rng.below(8) as u8)).collect() },
             7 => Chunk::Garbage { seed: rng.next(), len: rng.range(0, 40) as u32 },
+            8 => Chunk::Spliced { base, edits: (0..rng.range(1, 3)).map(|_| (rng.below(4096) as u32, rng.below(3) as u8, rng.below(256) as u8)).collect() },
             _ => Chunk::Flood { base, n: *rng.pick(&[10u32, 100, 400]) },
         });
     }
@@ -1108,6 +1114,30 @@ fn chunk_bytes(bincode_codec: bool, c: &Chunk) -> Vec<u8> {
                 for (pos, bit) in flips {
                     let i = *pos as usize % p.len();
                     p[i] ^= 1 << (bit % 8);
+                }
+            }
+            frame(&p)
+        }
+        Chunk::Spliced { base, edits } => {
+            let mut p = adv_payload(bincode_codec, base);
+            for (pos, kind, arg) in edits {
+                if p.is_empty() {
+                    break;
+                }
+                let i = *pos as usize % p.len();
+                let n = (1 + (*arg as usize % 8)).min(p.len() - i);
+                match kind % 3 {
+                    0 => {
+                        let run = p[i..i + n].to_vec();
+                        p.splice(i..i, run);
+                    }
+                    1 => {
+                        p.drain(i..i + n);
+                    }
+                    _ => {
+                        const MEANINGFUL: &[u8] = b"0919-+eE.\"[]{},:xfn \\\x00\xff\x80\x7f";
+                        p[i] = MEANINGFUL[*arg as usize % MEANINGFUL.len()];
+                    }
                 }
             }
             frame(&p)
